@@ -15,22 +15,33 @@
 
    PARTIAL (what is proved and what is not):
    * Sections 1-3 are proved for ALL step sequences of the lock machine over `asem` — any number of tasks, any interleaving
-     of the blocks of raw_rwlock.rs, any well-bracketed use of guards.  The simulation "Prim/Semaphore.v in strictly fair
-     mode refines asem" is NOT mechanised (C18 proves its ingredients: conservation, no overtaking, grants in queue order),
-     nor is the statement that run_exec of a compiled PlOps program performs only such step sequences; hence `_partial`.
+     of the blocks of raw_rwlock.rs, any well-bracketed use of guards (names `_partial`: they are about the abstract
+     semaphore).  Section 6 closes the gap to Prim/Semaphore.v: the concrete BatchSemaphore model in strictly fair mode
+     refines `asem` block by block (Proofs/PlSemRefine.v), and the CONCRETE lock machine (two concrete semaphores driven by
+     Acquire::new / poll / try_acquire / release as the methods of RawRwLock issue them, by any task in any engine state)
+     is simulated by the abstract one, so exclusion, one upgradable holder, admission and no-writer-during-downgrade hold of
+     the concrete pair (theorems C20_concrete_...).  Side conditions of the concrete machine, i.e. what is NOT covered: executions
+     being torn down (should_stop: release then closes the semaphore), queued waiters whose task has finished and Drop of
+     a queued Acquire (tokio's cancellation paths; the lock code never cancels), polls answering "closed".
+     Still NOT mechanised: that run_exec of a compiled PlOps program performs only such step sequences (the Atomic blocks
+     of Lang/PlOps.v call exactly sem_new_waiter / sem_poll / sem_try_acquire / sem_release on the two OSem objects, and
+     the crates are tied to that model by the differential check).
      Full statement (not proved): for every specs, bodies, scheduler and fuel, in every state reached by
      run_pl, the guards handed out (Log 51-64 minus Log 57) satisfy the exclusion matrix below.
    * The clauses "an upgrade cannot be overtaken by a writer" and "every downgrade completes without waiting" are FALSE of
      the code: Section 4 gives machine-level and model-level witnesses (findings F30, F7; the crates behave as the model).
    * DashMap: the model takes the inner RwLock (Lang/SyncOps.v, exclusion proved in Props/C04.v) around one atomic table
-     operation (dm_op), so results equal those of the table under the order of the atomic blocks by construction; the
-     linearizability check of tools/p_c20.py replays the crates' logs.  No separate theorem.
+     operation (dm_block); section 7: after any sequence of table blocks the contents are the fold of the abstract steps
+     and every answer is the plain map's.  That the blocks of different tasks are ordered like their lock tenures is C04's
+     exclusion, not restated here; the linearizability check of tools/p_c20.py replays the crates' logs.
    * Iteration order across instances / processes is outside Coq (no hash table model): oracle only (finding F31).
-   * rand / lazy_static: modelled (Rand nodes, Once + storage cell); C01 / C14 cover replay and isolation of the engine;
-     no separate theorem here. *)
+   * rand: section 7 states, per entry point, the pure function of the drawn words the model uses (that the words are the
+     scheduler's is the Rand node of Engine/Exec.v, replay = C01).  lazy_static: modelled (Once + storage cell), C14 covers
+     isolation between executions; no separate theorem here. *)
 From Coq Require Import List NArith Bool Arith Sorting.Sorted.
 From SV Require Import Clock.VClock Prim.Objects Engine.Exec Lang.PlMap Lang.PlSpec Lang.PlOps.
-From SV Require Import Proofs.PlMapProofs Proofs.PlLockProofs.
+From SV Require Import Prim.Semaphore Prim.SemInv Proofs.SemProofs Proofs.PlMapProofs Proofs.PlLockProofs Proofs.PlSemRefine Proofs.PlMiscProofs.
+From SV Require Sched.Random.
 Import ListNotations.
 Open Scope N_scope.
 
@@ -221,3 +232,163 @@ Example C20_history_example :
   hist_results [HIns 3 30; HIns 1 10; HIns 3 31; HGet 3; HRem 1; HLen; HIter; HSIns 2; HBIns 5; HOr; HSIter]
   = [ROpt None; ROpt None; ROpt (Some 30); ROpt (Some 31); ROpt (Some 10); RNum 1; RPairs [(3, 31)]; RNum 1; RNum 1; RNone; RKeys [2; 5]].
 Proof. vm_compute. reflexivity. Qed.
+
+(* ================================================================== *)
+(* 6. Prim/Semaphore.v (strictly fair) refines the abstract semaphore,  *)
+(*    and the concrete lock machine inherits sections 1-2               *)
+(* ================================================================== *)
+(* abstraction: available = sm_avail; queue = the waiters of sm_queue in order with their requests; ready = the waiters of
+   the acquire calls in progress (`pend`, ghost) whose has_permits is set.  srel also carries C18's sem_wf, fairness, open. *)
+Theorem C20_sem_abstraction_init : forall n, srel (sem_const_new n true) [] (a_new n).
+Proof. exact srel_init. Qed.
+Print Assumptions C20_sem_abstraction_init.
+
+Theorem C20_sem_try_refines : forall e s k e' s' r pend a,
+  sem_try_acquire e s k = Some (e', s', r) -> srel s pend a ->
+  exists a' ok, a_try a k = (a', ok) /\ srel s' pend a' /\ (r = AOk <-> ok = true) /\ r <> AClosed.
+Proof. exact sem_try_refines. Qed.
+Print Assumptions C20_sem_try_refines.
+
+Theorem C20_sem_new_waiter_stutters : forall e s k s' wid pend a,
+  sem_new_waiter e s k = Some (s', wid) -> srel s pend a ->
+  srel s' (wid :: pend) a /\ ~ In wid pend /\
+  exists w, get_waiter s' wid = Some w /\ wt_n w = k /\ wt_has w = false /\ wt_queued w = false.
+Proof. exact sem_new_waiter_stutters. Qed.
+Print Assumptions C20_sem_new_waiter_stutters.
+
+(* first poll = the abstract request: served and collected on the spot, or appended to the queue *)
+Theorem C20_sem_poll_first_refines : forall e s wid wk e' s' r pend a w,
+  sem_poll e s wid wk = Some (e', s', r) -> srel s pend a -> In wid pend -> get_waiter s wid = Some w ->
+  wt_has w = false -> wt_queued w = false ->
+  exists a' ok, a_request a wid (wt_n w) = (a', ok) /\
+    ((r = PReadyOk /\ ok = true /\ srel s' (rm wid pend) a') \/ (r = PPending /\ ok = false /\ srel s' pend a')).
+Proof. exact sem_poll_first_refines. Qed.
+Print Assumptions C20_sem_poll_first_refines.
+
+(* a poll after a release granted the waiter = the abstract poll collecting the grant *)
+Theorem C20_sem_poll_granted_refines : forall e s wid wk e' s' r pend a w,
+  sem_poll e s wid wk = Some (e', s', r) -> srel s pend a -> In wid pend -> get_waiter s wid = Some w -> wt_has w = true ->
+  r = PReadyOk /\ s' = s /\ exists a', a_poll a wid = (a', Some (wt_n w)) /\ srel s (rm wid pend) a'.
+Proof. exact sem_poll_granted_refines. Qed.
+Print Assumptions C20_sem_poll_granted_refines.
+
+Theorem C20_sem_poll_queued_stutters : forall e s wid wk e' s' r pend a w,
+  sem_poll e s wid wk = Some (e', s', r) -> srel s pend a -> get_waiter s wid = Some w ->
+  wt_has w = false -> wt_queued w = true ->
+  r = PPending /\ a_poll a wid = (a, None) /\ srel s' pend a.
+Proof. exact sem_poll_queued_stutters. Qed.
+Print Assumptions C20_sem_poll_queued_stutters.
+
+(* unblock_waiters_from_front is the abstract grant loop: same prefix of the queue, same permits *)
+Theorem C20_unblock_front_is_grant : forall fuel e s e' s' rd,
+  unblock_front fuel e s = Some (e', s') -> NoDup (sm_queue s) -> nostale e s ->
+  exists pre, sm_queue s = pre ++ sm_queue s' /\
+    (forall wid, In wid pre -> exists w, get_waiter s wid = Some w /\ wt_has w = false /\ get_waiter s' wid = Some (grant_upd w)) /\
+    (forall wid, ~ In wid pre -> get_waiter s' wid = get_waiter s wid) /\
+    a_grant fuel (sm_avail s) (absq s) rd = (sm_avail s', absq s', rd ++ map (fun wid => (wid, wn s wid)) pre).
+Proof. exact ub_sim. Qed.
+Print Assumptions C20_unblock_front_is_grant.
+
+Theorem C20_sem_release_refines : forall e s k e' s' pend a,
+  sem_release e s k = Some (e', s') -> srel s pend a -> 0 < k -> should_stop e = Some false -> nostale e s ->
+  srel s' pend (a_release a k).
+Proof. exact sem_release_refines. Qed.
+Print Assumptions C20_sem_release_refines.
+
+Theorem C20_sem_drop_completed_stutters : forall e s wid e' s' r w,
+  sem_drop_acquire e s wid true = Some (e', s', r) -> get_waiter s wid = Some w -> wt_queued w = false ->
+  e' = e /\ s' = s /\ r = DNothing.
+Proof. exact sem_drop_completed_stutters. Qed.
+Print Assumptions C20_sem_drop_completed_stutters.
+
+(* the concrete lock machine: every step is matched by at most one step of the abstract machine of section 1 *)
+Theorem C20_concrete_step_simulated : forall MAX, 0 < MAX -> forall c x c' st,
+  c_step MAX c x = Some c' -> crel c st -> exists l st', lock_run MAX st l = Some st' /\ crel c' st'.
+Proof. exact c_step_simulated. Qed.
+Print Assumptions C20_concrete_step_simulated.
+
+Theorem C20_concrete_run_simulated : forall MAX, 0 < MAX -> forall e l c,
+  c_run MAX (c_init MAX e) l = Some c -> exists la st, lock_run MAX (lk_init MAX) la = Some st /\ crel c st.
+Proof. intros MAX P e l c H. eapply c_run_simulated; eauto using crel_init. Qed.
+Print Assumptions C20_concrete_run_simulated.
+
+(* sections 1-2 for the concrete pair of BatchSemaphores, any engine state, any tasks, any interleaving *)
+Theorem C20_concrete_exclusion : forall MAX, 0 < MAX -> forall e l c, c_run MAX (c_init MAX e) l = Some c ->
+  (1 <= c_ex c -> c_ex c = 1 /\ c_sh c = 0 /\ c_up c = 0 /\ cs_hand (c_s c) = 0 /\ sm_avail (cs_sem (c_s c)) = 0) /\
+  c_up c <= 1 /\
+  (1 <= c_up c -> cs_hand (c_u c) = 0 /\ sm_avail (cs_sem (c_u c)) = 0) /\
+  c_sh c + c_up c + MAX * c_ex c <= MAX.
+Proof. exact concrete_exclusion. Qed.
+Print Assumptions C20_concrete_exclusion.
+
+Theorem C20_concrete_commit_admitted : forall MAX, 0 < MAX -> forall e l c m c',
+  c_run MAX (c_init MAX e) l = Some c -> c_step MAX c (CCommit m) = Some c' ->
+  spec_admits m (c_sh c) (c_ex c) (c_up c).
+Proof. exact concrete_commit_admitted. Qed.
+Print Assumptions C20_concrete_commit_admitted.
+
+Theorem C20_concrete_no_writer_during_downgrade : forall MAX, 0 < MAX -> forall e l c,
+  c_run MAX (c_init MAX e) l = Some c -> 1 <= cs_hand (c_s c) ->
+  c_ex c = 0 /\ (forall c', c_step MAX c (CCommit MExcl) = Some c' -> cs_hand (c_s c) = MAX).
+Proof. exact concrete_no_writer_during_downgrade. Qed.
+Print Assumptions C20_concrete_no_writer_during_downgrade.
+
+(* try-variants: a failed try_acquire leaves the concrete semaphore as it was; fairness of the concrete semaphore is C18's
+   C18_fair_no_overtake_* and C18_fair_grants_in_order *)
+Theorem C20_sem_try_fail_unchanged : forall e s k e' s' r,
+  sem_try_acquire e s k = Some (e', s', r) -> r <> AOk -> s' = s.
+Proof. exact sem_try_fail_unchanged. Qed.
+Print Assumptions C20_sem_try_fail_unchanged.
+
+(* the concrete machine runs: a reader, then a writer that queues behind it, the reader's unlock hands the lock over *)
+Definition e_one : exec :=
+  with_current_next (with_live (with_tasks init_exec [mkTask Runnable false false false false None [0]; mkTask Runnable false false false false None [0; 0]])
+                               [0%nat; 1%nat]) (SSome 0%nat) SNone.
+Example C20_concrete_machine_runs :
+  exists c, c_run PL_MAX_READERS (c_init PL_MAX_READERS e_one)
+      [CNew false 1; CPoll false 0 0; CCommit MShared;                      (* read(): served at once *)
+       CNew false PL_MAX_READERS; CPoll false 1 0;                          (* write(): queued *)
+       COpen MShared; CRel false 1;                                          (* drop of the read guard: grants the writer *)
+       CPoll false 1 0; CCommit MExcl] = Some c /\
+    c_ex c = 1 /\ c_sh c = 0 /\ sm_avail (cs_sem (c_s c)) = 0 /\ sm_queue (cs_sem (c_s c)) = [].
+Proof. eexists. vm_compute. repeat split; reflexivity. Qed.
+
+(* ================================================================== *)
+(* 7. DashMap contents; rand adapters                                   *)
+(* ================================================================== *)
+(* an operation = lock; one table block (dm_block); unlock.  Whatever tasks and engine states run the blocks, the cell
+   holds the fold of the abstract steps in block order and each block answers what the plain map answers *)
+Theorem C20_dashmap_contents_fold : forall o fs st m c,
+  get_obj st (MAPCELL o) = Some (OCell (flat_of m) c) ->
+  exists st', dm_run o fs st = Some (st', snd (spec_run fs m)) /\
+              get_obj st' (MAPCELL o) = Some (OCell (flat_of (fst (spec_run fs m))) c).
+Proof. exact dashmap_contents_fold. Qed.
+Print Assumptions C20_dashmap_contents_fold.
+
+(* fill_bytes(n): ceil(n/8) drawn words, the first n of their little-endian bytes (8 per word, each below 256) *)
+Theorem C20_rand_fill_bytes_value : forall n k vs, length vs = Nat.div (n + 7) 8 ->
+  feed (fill_bytes_code n k) vs = k (firstn n (flat_map (le_bytes 8) vs)).
+Proof. exact fill_bytes_value. Qed.
+Print Assumptions C20_rand_fill_bytes_value.
+
+Theorem C20_rand_le_bytes : forall n v, length (le_bytes n v) = n /\ (forall b, In b (le_bytes n v) -> b < 256).
+Proof. intros n v. split; [apply le_bytes_length|intros b; apply le_bytes_byte]. Qed.
+Print Assumptions C20_rand_le_bytes.
+
+(* gen_range(0..n): words failing rand's zone test are skipped; the first accepted word gives the high half of word * n *)
+Theorem C20_rand_gen_range_value : forall rej v hi fuel n k,
+  Forall (fun x => Random.accept_w 64 n x = None) rej -> Random.accept_w 64 n v = Some hi -> (length rej < fuel)%nat ->
+  feed (gen_range_code fuel n k) (rej ++ [v]) = k hi.
+Proof. exact gen_range_value. Qed.
+Print Assumptions C20_rand_gen_range_value.
+
+(* next_u32 (StdRng / ThreadRng): the low half of the drawn word; next_u64 and random::<u64>() are the word itself and
+   gen::<bool>() is v_bool (the top bit of that half) — these three are read off Lang/PlOps.v (QRn, QRr, QRq) *)
+Theorem C20_rand_next_u32_value : forall v, v_next_u32 v < 4294967296 /\ exists hi, v = hi * 4294967296 + v_next_u32 v.
+Proof. exact next_u32_is_low_half. Qed.
+Print Assumptions C20_rand_next_u32_value.
+
+Example C20_rand_examples :
+  feed (fill_bytes_code 3 (fun b => Log 82 b Ret)) [66051] = Log 82 [3; 2; 1] Ret /\
+  feed (gen_range_code 4 1 (fun v => Log 84 [v] Ret)) [18446744073709551615; 5] = Log 84 [0] Ret.
+Proof. vm_compute. split; reflexivity. Qed.
